@@ -29,6 +29,7 @@ ASSUMPTIONS = [
     "float 1e-9 relative, ids as partitions, everything else exact incl. dtype kind",
 ]
 BUDGET = {"quick": (32, 10), "thorough": (None, 60)}
+EARLY = 6  # additional strata from 2005-2014 in the quick tier (all of them in the thorough tier)
 GEN = dict(mode="branch", max_households=3)
 
 _UNIT = re.compile(r"(?P<base>.*_)(?P<u>[ymwd])(?P<g>_(?:%s))?$" % "|".join(SUPPORTED_GROUPINGS))
